@@ -3,6 +3,7 @@ package verifdrv
 import (
 	"math/rand"
 	"sort"
+	"strings"
 )
 
 // The name pool.  Abstract names are integers whose order is the byte order of the concrete
@@ -18,7 +19,7 @@ var plainPool = []string{
 
 var oddPool = []string{
 	"A b", "B,1", "C\"q\"c", "D;e", "E'e", "Zz top", "a b", "a,b", "a-b", "a:b", "a#b", "b  c", "c\td",
-	"d\"e", "e(1)", "f=g", "g,\"h\"", "h 1 h", "i.5e", "j*", "k%", "l&m", "m|n", "n\\o", "o{}", "p[]", "q<>r", "r?s", "s!t",
+	"d\"e", "e(1)", "f=g", "g,\"h\"i", "h 1 h", "i.5e", "j*", "k%", "l&m", "m|n", "n\\o", "o{}", "p[]", "q<>r", "r?s", "s!t",
 	"é", "éa", "ñandú", "ж", "жа б", "хляб, бял", "яйце", "ω3", "水", "水 果", "果汁,甜", "🍞", "é",
 	"aaaaaaaaaaaaaaaaaaaaaaaaaaaaaaaaaaaaaaaaaaaaaaaaaaaaaaaaaaaa", "long name that does not fit in the column at all",
 }
@@ -59,4 +60,13 @@ func pickNames(rng *rand.Rand, pool []string, k int) []string {
 		out[i+1] = pool[p]
 	}
 	return out
+}
+
+func init() {
+	// self-check of the pool: a name that the parser would not return unchanged is a harness bug
+	for _, n := range mergedPool() {
+		if n == "" || strings.ContainsAny(n[:1], "\t \n:\"-#") || strings.ContainsAny(n[len(n)-1:], "\t \n:\"-") || strings.ContainsAny(n, "\n\r") {
+			panic("bad pool name " + n)
+		}
+	}
 }
